@@ -101,10 +101,6 @@ def _skip(
                 return None
         return SkipUntil(subs)
 
-    if isinstance(expr, SkipUntil):
-        subs.extend(expr.subs)
-        return SkipUntil(subs)
-
     if isinstance(expr, String):
         subs.append(expr.value)
         return SkipUntil(subs)
